@@ -71,7 +71,7 @@ OFFSETS = [0.0] + [s * 2.0**-k for k in (52, 51, 45, 35, 25, 15, 8, 5) for s in 
 def budget(tier):
     if tier == "quick":
         return dict(examples=1500, shards=4, min_nontrivial=3000)
-    return dict(examples=20000, shards=16, min_nontrivial=150000)
+    return dict(examples=20000, shards=16, min_nontrivial=50000)
 
 
 def _lu(rng, lo, hi, n=None):
